@@ -157,6 +157,51 @@ CHECKS["C14"] = dict(
     technique="TLA+/TLC exhaustive model checking + scenario replay",
     note=TRUST + "; Cholesky factors are characterised declaratively and checked on the real result, not computed by TLC")
 
+CHECKS["C04"] = dict(
+    text="TLC checks specs/ArrayTrain.tla: one training loop on a chunked array as a task graph run by an executor with two memory "
+         "modes (tasks share the caller's objects / tasks work on serialised copies), parameters as version tags: for every "
+         "number of row blocks, every feature-axis split, every update-switch set, both modes and EVERY topological order of the "
+         "E-step tasks over two iterations, every block contributes exactly once with all its features at the current version "
+         "and the caller's machine is fresh after each iteration; a copy-back list missing an attribute is refuted in Isolated "
+         "mode only, blocks split along the feature axis are refuted. Every exported behaviour is executed on the real trainers "
+         "(k-means, GMM ML/MAP, ISV/JFA fit_using_array, WCCN, whitening) under a replaying Dask scheduler that follows the "
+         "model's schedule and emulates isolation by cloudpickle round trips; model, criterion and thresholded result must equal "
+         "the in-memory run.",
+    ref="DESIGN.md section 5 (C04)",
+    technique="TLA+/TLC model checking of the task graph (all schedules, two memory modes) + replay under a replaying Dask scheduler",
+    note=TRUST + "; no real multi-process cluster is started; the atomic step is a Dask task")
+CHECKS["C05"] = dict(
+    text="TLC checks specs/GmmMStep.tla (MAP, exact rationals): the Reynolds blend written as normal equations of the relevance-"
+         "penalised objective, fixed-ratio blend, renormalised weights, no-evidence components keep the prior, relevance limits as "
+         "rational inequalities, for all switch sets; the as-implemented variance blend (deviation MAP_VAR_PRIOR_MEAN_NOT_SQUARED) "
+         "is refuted by TLC. map_gmm_m_step is replayed on every exported state against the intended model; a mismatch equal to the "
+         "as-implemented model exactly is the open known finding D4 (KNOWN-FINDING), anything else a violation. One-iteration fits "
+         "on real data against the blend of prior.acc_stats, relevance 1e12 / 1e-12 limits, and rank traces of the penalised "
+         "likelihood for means-only MAP validated by TLC.",
+    ref="DESIGN.md section 5 (C05), section 6 (D4)",
+    technique="TLA+/TLC model checking (intended and as-implemented variants) + replay + TLC trace validation",
+    note=TRUST + "; D4 is recorded, not repaired: tests/test_gmm.py::test_map_em pins the defective values")
+CHECKS["C13"] = dict(
+    text="TLC checks the validity invariants of the design modules with degenerate inputs in the domain: KMeans.AllFinite with "
+         "fewer distinct points than clusters (the divide-by-zero deviation is refuted), GmmMStep.WeightsOnSimplex / VarAboveFloor "
+         "with zero-mass components, GmmMachine.VarAboveCurrentFloor over all histories. The degenerate scenarios are walked "
+         "through the real k-means (an emptied cluster must stay finite), the M-steps below the count floor, and validity flags "
+         "on every iteration of GMM ML/MAP, k-means-initialised GMM and i-vector training traces from degenerate drivers are "
+         "validated by TLC.",
+    ref="DESIGN.md section 5 (C13)",
+    technique="TLA+/TLC model checking with degenerate domains + replay + TLC trace validation of validity flags",
+    note=TRUST)
+CHECKS["C15"] = dict(
+    text="TLC checks the exact affine laws of every design module on its small domain (GmmMStep.AffineEquivariant, "
+         "KMeans.Equivariant for translations / 90-degree rotations / uniform scaling, GmmDensity.AffineShift, "
+         "LinearScoring.AffineInvariant, FaLatent.AffineInvariant, IVector.AffineInvariant); metamorphic pairs on the real code "
+         "(scales 1e-3..1e3 incl. negative, shifts, random rotations for k-means) for GMM ML/MAP training, log-likelihoods, "
+         "linear scores, ISV/JFA enrolment / scores / training and i-vectors are recorded as fact traces validated by TLC. MAP "
+         "variances are compared with the as-implemented blend: an exact match is the open known finding D4.",
+    ref="DESIGN.md section 5 (C15)",
+    technique="TLA+/TLC model checking of affine laws + TLC-validated metamorphic fact traces",
+    note=TRUST + "; MAP with frozen means and adapted variances is excluded (C05's formula is not shift-equivariant there)")
+
 PENDING = {}
 
 
